@@ -16,8 +16,9 @@
 (*          (ConvOutput.ns: signals, memories, instances; base = override or  *)
 (*          name-table entry) -- used for EveryObjectDeclared and to classify *)
 (*          a duplicate                                                      *)
-(*   lines  the emitted text as lines, without the timestamp lines           *)
-(*   ndate  how many timestamp lines the harness removed (must be 2)         *)
+(*   lines  the emitted text as lines, without the two timestamp lines and    *)
+(*          the banner line holding the git revision of the LiteX checkout   *)
+(*   ndate  how many such lines the harness removed (must be 3)              *)
 EXTENDS Namer, Json, IOUtils
 
 T == JsonDeserialize(IOEnv.TRACES)
@@ -48,9 +49,9 @@ Judge(m) ==
    unrepro    |-> {p \in Runs(m) \X Runs(m) : p[1] < p[2] /\ m.runs[p[1]].grp = m.runs[p[2]].grp
                                               /\ m.runs[p[1]].lines # m.runs[p[2]].lines}]
 
-(* harness obligations: exactly the two timestamp lines were removed, declarations were *)
+(* harness obligations: exactly the three header lines were removed, declarations were  *)
 (* found, every design has >= 2 runs per group                                          *)
-Sane(m) == /\ \A i \in Runs(m) : /\ m.runs[i].ndate = 2
+Sane(m) == /\ \A i \in Runs(m) : /\ m.runs[i].ndate = 3
                                  /\ Len(m.runs[i].decls) >= 1
            /\ \A i \in DOMAIN m.runs : \E j \in DOMAIN m.runs : j # i /\ m.runs[j].grp = m.runs[i].grp
 
